@@ -12,7 +12,8 @@ PROPERTY = 'C17'
 LEVEL = 'proof'
 REQUIRED_THEOREMS = ['Properties.C17.exp_inverse_rejects_iff', 'Properties.C17.tanh_inverse_rejects_iff', 'Properties.C17.sigmoid_inverse_rejects_iff',
                      'Properties.C17.rq_rejects_outside', 'Properties.C17.in_domain_index_in_range', 'Properties.C17.tails_accept_outside', 'Properties.C17.cubic_rejects_outside', 'Properties.C17.rq_forward_in_domain_total', 'Properties.C17.rq_forward_returns_bin', 'Properties.C17.rq_inverse_in_domain_total', 'Properties.C17.cubic_forward_in_domain_total', 'Properties.C17.quad_forward_in_domain_total', 'Properties.C17.quad_tails_one_bin_counterexample', 'Properties.C17.rq_tails_total', 'Properties.C17.quad_inverse_in_domain_total', 'Properties.C17.rq_tails_coupling_never_raises', 'Properties.C17.cubic_inverse_in_domain_total', 'Properties.C17.linear_in_domain_total', 
-                     'Properties.C17.exp_inverse_rejects_iff_executed', 'Properties.C17.tanh_inverse_rejects_iff_executed', 'Properties.C17.sigmoid_inverse_rejects_iff_executed', 'Properties.C17.cauchy_inverse_rejects_iff_executed', 'Properties.C17.nonlin_layer_err_none_iff', 'Properties.C17.permutation_rejects_iff']
+                     'Properties.C17.exp_inverse_rejects_iff_executed', 'Properties.C17.tanh_inverse_rejects_iff_executed', 'Properties.C17.sigmoid_inverse_rejects_iff_executed', 'Properties.C17.cauchy_inverse_rejects_iff_executed', 'Properties.C17.nonlin_layer_err_none_iff', 'Properties.C17.permutation_rejects_iff',
+                     'Properties.C17.rq_forward_well_defined', 'Properties.C17.quad_inverse_well_defined', 'Properties.C17.lin_forward_well_defined', 'Properties.C17.cubic_forward_well_defined', 'Properties.C17.cubic_inverse_cardano_log_zero', 'Properties.C17.cubic_inverse_divides_by_zero', 'Properties.C17.coupling_layer_err_some_iff', 'Properties.C17.coupling_lin_layer_rejects_iff', 'Properties.C17.quad_tails_coupling_never_raises', 'Properties.C17.lin_tails_coupling_never_raises']
 RULE = ("atoms: boundary value b, nextafter(b, inside), nextafter(b, outside), interior, far outside; placed at every batch position among in-domain "
         "fillers; transforms: Exp/Tanh/Sigmoid/Logit/CauchyCDF inverses, bounded and unconstrained splines of the four families in both directions; boxes "
         "and tail bounds 1e-2..1e4; both precisions; distinct = (transform, direction, precision, bound, atom kind, position); non-trivial = all of them "
